@@ -51,9 +51,12 @@ Definition exec_v (w : bworld) : gval := VOrc "exec" [("InitChain", [VTuple [VTo
 Definition opts_v (w : bworld) : gval :=
   VOrc "managerOpts" [("SignaturePayloadProvider", [VTuple [VTok "payload" []; er (b_payload_ok w)]])].
 
+(* the translated functions that run inside this lemma file; every other call is a scripted collaborator *)
+Definition boot_funs : list (string * gfun) :=
+  filter (fun p => (fst p =? "getInitialState")) gen_funs.
 Definition run_boot (w : bworld) : option (list gval * list gval) :=
-  match lookup gen_funs "getInitialState" with
-  | Some fn => interp (bind (exec 400 gen_funs boot_globals
+  match lookup boot_funs "getInitialState" with
+  | Some fn => interp (bind (exec 400 boot_funs boot_globals
                                   (start_env fn None [ctx; genesis_v w; signer_v w; store_v w; exec_v w; VUnit; opts_v w]) [] (f_body fn))
                             (fun r => RRet (fst r, rev (snd r))))
   | None => None
